@@ -322,6 +322,31 @@ def delivery_obligations(ck, G, ex, st, ctx, Aov, names, hostcb):
                  sample='DSP %s with its interrupt enabled: the host callback is invoked, whatever the mailbox / semaphore state was before' % nm)
 
 
+def unmask_delivery(ck, G, ex, st, ctx, Aov, names, hostcb):
+    """a semaphore sent while the receiver had it masked is not lost: when the receiver changes its mask so that a pending bit
+    becomes unmasked (summary flag rising), the interrupt it was holding off is delivered then - the DSP's write to 0x0CE raises
+    IRQ 0xE in the ICU request word, the host's MaskSemaphore invokes the host callback."""
+    L = G.L
+    impl = ctx['impl']
+    v, v2 = LV['a'], LV['b']
+    for nm, op, side, val in (('MMIO write 0x0ce (DSP unmasks)', ('b', '@ti_mmio_write', [impl, 0xCE, v2]), 'apbp_from_cpu', v2), ('MaskSemaphore (host unmasks)', ('a', '@tf_masksemaphore', [impl, v]), 'apbp_from_dsp', v)):
+        cond = [names[side + '.signal'] == 0, (names[side + '.semaphore'] & ~val) != 0]
+        try:
+            r = lin_run(G, ex, st, ctx, hostcb, [op])
+        except (Abort, UnwindBound) as x:
+            ck.inconclusive.append('Delivery[%s]: %s' % (nm, str(x)[:100]))
+            continue
+        ck.nstates += 1
+        if side == 'apbp_from_cpu':
+            req = bv(ex.load(r['st'], Ptr(impl.r, G.off['icu'] + L['ICU']['request'][0]), 2), 16)
+            goal = z3.Extract(14, 14, req) == 1
+        else:
+            cb = 'apbp_from_dsp semaphore handler'
+            goal = z3.Or(*[g_ for n_, g_ in r['cbs'] if n_ == cb]) if any(n_ == cb for n_, g_ in r['cbs']) else z3.BoolVal(False)
+        ck.prove('Delivery[%s]' % nm, Aov + cond, goal, vars=dict({'value': v, 'value2': v2}, **{n: t for n, t in names.items() if n.startswith((side, 'icu.request'))}),
+                 sample='%s while a semaphore bit sent earlier is pending behind the mask: the held-off interrupt is delivered (IRQ 0xE recorded / host callback invoked)' % nm)
+
+
 def interleave_points(acqA, acqB):
     """indices k >= 1 of A's acquisitions at which B can run: B needs the mutex A is about to take and none A holds"""
     needB = {a[0] for a in acqB}
@@ -332,6 +357,9 @@ def lin_job(pairs, tier, seed):
     ck = core.Check('C19', 'other', tier, seed)
     G = graph.get()
     ex, st, ctx, Aov, names, hostcb = setup(G)
+    # locations whose never-initialised content was materialised in *this* job's common ancestor state (setup() forks a new
+    # ancestor per job: the set must not outlive it, or a worker process that serves two jobs compares runs with different garbage)
+    _PINNED = set()
     for (A, B, k) in pairs:
         nm = 'Linearizable[%s || %s @%d]' % (A[0], B[0], k)
         try:
@@ -452,7 +480,6 @@ LV = {'a': z3.BitVec('value', 16), 'b': z3.BitVec('value2', 16)}
 
 
 _PAIRS = []
-_PINNED = set()
 
 
 def _lin_dispatch(idx, tier, seed):
@@ -574,6 +601,7 @@ def run(tier, seed):
         else:
             ck.absorb(r)
     delivery_obligations(ck, G, ex, st, ctx, A, names, hostcb)
+    unmask_delivery(ck, G, ex, st, ctx, A, names, hostcb)
     from checks import facade
     facade.obligations(ck, 'apbp')
     facade.obligations(ck, 'callbacks')
